@@ -18,13 +18,13 @@ static u8 cls;
 static u64 nwords;
 static struct struct_Elf_Data data;
 
-struct struct_Elf_Scn *elf_getscn(void *elf, u64 idx)
+void *elf_getscn(void *elf, u64 idx)
 {
   if (idx == HT_IDX) return (struct struct_Elf_Scn *)scn_ht;
   if (idx == sym_idx && symtab_exists) return (struct struct_Elf_Scn *)scn_sym;
   return 0;
 }
-struct struct_Elf64_Shdr *gelf_getshdr(void *scn, void *dst_)
+void *gelf_getshdr(void *scn, void *dst_)
 {
   struct struct_Elf64_Shdr *dst = dst_;
   if (!shdr_ok) return 0;
@@ -33,12 +33,12 @@ struct struct_Elf64_Shdr *gelf_getshdr(void *scn, void *dst_)
   dst->f9 = sym_entsize;  /* sh_entsize */
   return dst;
 }
-struct struct_Elf_Data *elf_getdata(void *scn, void *prev)
+void *elf_getdata(void *scn, void *prev)
 {
   if (scn != (void *)scn_ht || !data_ok) return 0;
   return &data;
 }
-struct struct_Elf64_Ehdr *gelf_getehdr(void *elf, void *dst_)
+void *gelf_getehdr(void *elf, void *dst_)
 {
   struct struct_Elf64_Ehdr *dst = dst_;
   memset(dst, 0, sizeof *dst);
